@@ -855,5 +855,161 @@ func (g *genA) versions() [][]*schemaDef {
 			set[s] = append(set[s], c)
 		}
 	}
+	// Same type NAME with different KINDS (drawn last so that everything above is
+	// unchanged): a service, or one version of a service, uses a custom scalar
+	// whose name another side uses for an enum / input object / object / union.
+	// No field common to both sides refers to the name, so only a type-level
+	// kind check can notice. Such sets must be rejected under every naming.
+	switch x := r.Intn(100); {
+	case x < 9 && g.nsvc >= 2:
+		g.kindCollisionServices(set)
+	case x < 15:
+		g.kindCollisionVersions(set)
+	}
 	return set
+}
+
+// universeNames lists the non-scalar type names of the universe with their kinds.
+func (g *genA) universeNames() map[string]string {
+	out := map[string]string{}
+	for e := range g.enums {
+		out[e] = "ENUM"
+	}
+	for i := range g.inputs {
+		out[i] = "INPUT_OBJECT"
+	}
+	for _, o := range g.objs {
+		out[o] = "OBJECT"
+	}
+	if g.union != "" {
+		out[g.union] = "UNION"
+	}
+	return out
+}
+
+// addScalarUse declares SCALAR name in d and uses it on a new root field,
+// either as the result or as an optional argument.
+func addScalarUse(d *schemaDef, name string, asArg bool) {
+	d.Types[name] = &typeDef{Name: name, Kind: "SCALAR"}
+	q := d.Types["Query"]
+	if asArg {
+		q.Fields = append(q.Fields, fieldDef{Name: "k0", Type: named("SCALAR", "int64"), Args: []inputVal{{"t", named("SCALAR", name)}}})
+	} else {
+		q.Fields = append(q.Fields, fieldDef{Name: "k0", Type: named("SCALAR", name)})
+	}
+}
+
+func (g *genA) kindCollisionServices(set [][]*schemaDef) {
+	r := g.r
+	names := g.universeNames()
+	var ns []string
+	for n := range names {
+		ns = append(ns, n)
+	}
+	sort.Strings(ns)
+	r.Shuffle(len(ns), func(i, j int) { ns[i], ns[j] = ns[j], ns[i] })
+	for _, n := range ns {
+		// a service none of whose versions knows n, while another service's version does
+		var lacking []int
+		known := false
+		for s := range set {
+			has := false
+			for _, v := range set[s] {
+				if _, ok := v.Types[n]; ok {
+					has = true
+				}
+			}
+			if has {
+				known = true
+			} else {
+				lacking = append(lacking, s)
+			}
+		}
+		if !known || len(lacking) == 0 {
+			continue
+		}
+		s := lacking[r.Intn(len(lacking))]
+		asArg := r.Intn(2) == 0
+		for _, v := range set[s] {
+			addScalarUse(v, n, asArg)
+			v.gc()
+		}
+		g.feat["gen:kind_collision_services:"+names[n]]++
+		return
+	}
+}
+
+func refersTo(t *tref, name string) bool { return t.root().Name == name }
+
+func (g *genA) kindCollisionVersions(set [][]*schemaDef) {
+	r := g.r
+	var multi []int
+	for s := range set {
+		if len(set[s]) > 1 {
+			multi = append(multi, s)
+		}
+	}
+	if len(multi) == 0 {
+		return
+	}
+	s := multi[r.Intn(len(multi))]
+	v := r.Intn(len(set[s]))
+	d := set[s][v]
+	var cands []string
+	for _, n := range d.typeNames() {
+		t := d.Types[n]
+		if (t.Kind == "ENUM" || t.Kind == "INPUT_OBJECT") && !strings.HasSuffix(n, "_InputObject") {
+			// some other version must keep the name with its original kind
+			for w, o := range set[s] {
+				if w != v && o.Types[n] != nil && o.Types[n].Kind == t.Kind {
+					cands = append(cands, n)
+					break
+				}
+			}
+		}
+	}
+	if len(cands) == 0 {
+		return
+	}
+	n := cands[r.Intn(len(cands))]
+	kind := d.Types[n].Kind
+	c := d.clone()
+	for _, t := range c.Types {
+		var fs []fieldDef
+		for _, f := range t.Fields {
+			if refersTo(f.Type, n) {
+				continue
+			}
+			var as []inputVal
+			for _, a := range f.Args {
+				if !refersTo(a.Type, n) {
+					as = append(as, a)
+				}
+			}
+			f.Args = as
+			fs = append(fs, f)
+		}
+		t.Fields = fs
+		var is []inputVal
+		for _, a := range t.InputFields {
+			if !refersTo(a.Type, n) {
+				is = append(is, a)
+			}
+		}
+		if t.Kind == "INPUT_OBJECT" && t.Name != n && len(is) == 0 {
+			return // would leave an empty input object
+		}
+		t.InputFields = is
+		if t.Kind == "OBJECT" && t.Name != "Query" && t.Name != "Mutation" && len(t.Fields) == 0 {
+			return // would leave an empty object
+		}
+	}
+	delete(c.Types, n)
+	addScalarUse(c, n, r.Intn(2) == 0)
+	c.gc()
+	if p := c.closureProblems(); len(p) > 0 {
+		return
+	}
+	set[s][v] = c
+	g.feat["gen:kind_collision_versions:"+kind]++
 }
